@@ -73,10 +73,9 @@ Proof. exact (lock_exclusion T s t t' l i). Qed.
 
 (** the inventory found at least one site of every one of the 22 location classes (a translator that
     silently loses a field would make the discipline vacuously true) *)
-Theorem C10_inventory_covers :
-  forallb (fun l => existsb (fun a => N.eqb (a_loc a) l) access_table)
-          [1; 2; 3; 4; 5; 6; 7; 8; 9; 10; 11; 12; 13; 14; 15; 16; 17; 18; 19; 20; 21; 22] = true.
-Proof. exact (eq_refl true <: forallb (fun l => existsb (fun a => N.eqb (a_loc a) l) access_table) [1; 2; 3; 4; 5; 6; 7; 8; 9; 10; 11; 12; 13; 14; 15; 16; 17; 18; 19; 20; 21; 22] = true). Qed.
+Theorem C10_inventory_covers :   (* map N.of_nat (seq 1 22) = [1; 2; ...; 22] *)
+  forallb (fun l => existsb (fun a => N.eqb (a_loc a) l) access_table) (map N.of_nat (seq 1 22)) = true.
+Proof. exact (eq_refl true <: forallb (fun l => existsb (fun a => N.eqb (a_loc a) l) access_table) (map N.of_nat (seq 1 22)) = true). Qed.
 
 (** the table generated from the tree under test satisfies the discipline (finite: the table is the bound) *)
 Theorem C10_discipline : discipline_ok access_table = true.
